@@ -53,24 +53,40 @@ Definition ins_all (f : forest) (l : list item) : forest := fold_left (fun g it 
 Definition rebuild (l : list item) : forest := ins_all [] (by_depth l).
 
 (* ---- export order (_order_keys / _order_keys_recursive) ----
-   a table row: key, module of the key, type key of the symbol, module of that type, attrs as a forest
-   of (type key); modules are numbers *)
-Record row := { rkey : nat; rmod : nat; rtype : nat; rtmod : nat; rattrs : forest }.
+   A symbol is a node XNd k cs ds: k the key of its type, cs its attrs, ds the attrs of the table's entry for k (the
+   declaration of the type) - the lookup `self.__items.get(fullyname)` unfolded in advance, [] when the table has no such
+   entry (or the entry has no attrs: the two cases give the same list). a table row: key, module of the key, type key of the symbol, module of that type, attrs, declaration attrs of the
+   type; modules are numbers *)
+Inductive xtree := XNd (key : nat) (kids : list xtree) (decl : list xtree).
+Definition xforest := list xtree.
+Record row := { rkey : nat; rmod : nat; rtype : nat; rtmod : nat; rattrs : xforest; rdecl : xforest }.
 (* module of a type key, as recorded with the attr symbols: given by a function *)
 Section Order.
   Variable tmod : nat -> nat.
   Fixpoint mem_nat (x : nat) (l : list nat) : bool := match l with [] => false | y :: r => Nat.eqb x y || mem_nat x r end.
-  (* post-order over the attrs; a type key of the exported module is appended once *)
-  Fixpoint order_attr (m : nat) (t : tree) (orders : list nat) : list nat :=
+  (* post-order over the attrs; a type key of the exported module is appended once, after the keys of its declaration's attrs.
+     While those are visited the key already sits in `orders` (appended, later moved to the end): `blocked` holds the keys in
+     that state - they count as listed, nothing else depends on where they sit *)
+  Fixpoint order_x (m : nat) (t : xtree) (blocked orders : list nat) {struct t} : list nat :=
     match t with
-    | Nd k cs =>
-        let o1 := (fix go (l : forest) (o : list nat) : list nat :=
-                     match l with [] => o | c :: r => go r (order_attr m c o) end) cs orders in
-        if Nat.eqb m (tmod k) && negb (mem_nat k o1) then o1 ++ [k] else o1
+    | XNd k cs ds =>
+        let o1 := (fix go (l : xforest) (o : list nat) : list nat :=
+                     match l with [] => o | c :: r => go r (order_x m c blocked o) end) cs orders in
+        if Nat.eqb m (tmod k) && negb (mem_nat k o1) && negb (mem_nat k blocked) then
+          (fix go (l : xforest) (o : list nat) : list nat :=
+             match l with [] => o | c :: r => go r (order_x m c (k :: blocked) o) end) ds o1 ++ [k]
+        else o1
     end.
+  Definition order_forest (m : nat) (blocked : list nat) (f : xforest) (orders : list nat) : list nat :=
+    fold_left (fun o c => order_x m c blocked o) f orders.
+  (* _order_keys_recursive on the symbol of a table row: its attrs, then its own type *)
+  Definition order_row_pre (m : nat) (r : row) (orders : list nat) : list nat :=
+    let o1 := order_forest m [] (rattrs r) orders in
+    if Nat.eqb m (rtmod r) && negb (mem_nat (rtype r) o1)
+    then order_forest m [rtype r] (rdecl r) o1 ++ [rtype r]
+    else o1.
   Definition order_row (m : nat) (r : row) (orders : list nat) : list nat :=
-    let o1 := fold_left (fun o c => order_attr m c o) (rattrs r) orders in
-    let o2 := if Nat.eqb m (rtmod r) && negb (mem_nat (rtype r) o1) then o1 ++ [rtype r] else o1 in
+    let o2 := order_row_pre m r orders in
     if mem_nat (rkey r) o2 then o2 else o2 ++ [rkey r].
   Definition order_keys (m : nat) (rows : list row) : list nat :=
     fold_left (fun o r => if Nat.eqb (rmod r) m then order_row m r o else o) rows [].
